@@ -1746,8 +1746,10 @@ class Ev:
                     return float(v.text())
                 except ValueError:
                     raise _Raise(e, "float(%r)" % v.text(), "ValueError")
-            if len(v.pieces) == 1 and v.pieces[0][0] == "sym" and v.pieces[0][1].kind in ("num", "int"):
+            if len(v.pieces) == 1 and v.pieces[0][0] == "sym" and v.pieces[0][1].kind == "num":
                 return v.pieces[0][1]
+            if len(v.pieces) == 1 and v.pieces[0][0] == "sym" and v.pieces[0][1].kind == "int":
+                return Term("float", [v.pieces[0][1]])  # the number, but no longer an integer
             return Frag("float(%s)" % v.text())
         if name in ("round", "abs", "min", "max", "float") and args and any(isinstance(a, (Sym, Term)) for a in args):
             if name == "float" and len(args) == 1:
